@@ -207,6 +207,8 @@ fn projections() -> (Vec<Pj>, Vec<String>) {
     }
     out.push(Pj { name: "dense-projective#1".into(), family: "general-projection", m: ints4([[2, 0, 1, 1], [1, 3, 0, -2], [0, 1, 2, 1], [1, -1, 1, 3]]) });
     out.push(Pj { name: "dense-projective#2".into(), family: "general-projection", m: map4(&[[3i64, 1, -1, 2], [0, 2, 1, 1], [1, 0, -2, 3], [2, 1, 1, -1]], |v| q(v as i128, 3)) });
+    // audit: dense-projective#2 has determinant 0 (only the forward sections can use it); #3 differs in one entry and is invertible (det -18/81)
+    out.push(Pj { name: "dense-projective#3".into(), family: "general-projection", m: map4(&[[3i64, 1, -1, 2], [0, 2, 1, 1], [1, 0, -2, 3], [2, 1, 1, 1]], |v| q(v as i128, 3)) });
     (out, failed)
 }
 fn viewports() -> Vec<[X; 4]> { vec![[qi(0), qi(0), qi(640), qi(480)], [qi(10), qi(-20), qi(3), qi(7)], [qi(-5), qi(5), qi(1), qi(1)]] }
@@ -315,6 +317,112 @@ fn measure() -> Premise {
     pm
 }
 
+// ---------------------------------------------------------------------------------------------------
+// audit additions: argument forms, structured extremes, floats
+
+/// the four `Into<Vec3<T>>` forms a caller can hand a point in (the Vec4 form carries a junk w = 2 that must be dropped)
+#[derive(Clone, Copy, PartialEq, Eq, Debug)]
+enum Form { V3, Arr, Tup, V4 }
+const FORMS: [Form; 4] = [Form::V3, Form::Arr, Form::Tup, Form::V4];
+impl Form { fn s(self) -> &'static str { match self { Form::V3 => "form-vec3", Form::Arr => "form-array", Form::Tup => "form-tuple", Form::V4 => "form-vec4(w dropped)" } } }
+macro_rules! call4 { ($no:ident, $zo:ident, $row:expr, $fl:expr, $o:expr, $mv:expr, $p:expr, $r:expr) => { match ($row, $fl) {
+    (true, Fl::NO) => rm::Mat4::$no($o, r4($mv), r4($p), $r), (true, Fl::ZO) => rm::Mat4::$zo($o, r4($mv), r4($p), $r),
+    (false, Fl::NO) => cm::Mat4::$no($o, c4($mv), c4($p), $r), (false, Fl::ZO) => cm::Mat4::$zo($o, c4($mv), c4($p), $r),
+} } }
+macro_rules! by_form { ($no:ident, $zo:ident, $form:expr, $row:expr, $fl:expr, $a:expr, $mv:expr, $p:expr, $vp:expr) => { {
+    let r = Rect { x: $vp[0], y: $vp[1], w: $vp[2], h: $vp[3] };
+    let a = $a;
+    let v = match $form {
+        Form::V3 => call4!($no, $zo, $row, $fl, Vec3 { x: a[0], y: a[1], z: a[2] }, $mv, $p, r),
+        Form::Arr => call4!($no, $zo, $row, $fl, *a, $mv, $p, r),
+        Form::Tup => call4!($no, $zo, $row, $fl, (a[0], a[1], a[2]), $mv, $p, r),
+        Form::V4 => call4!($no, $zo, $row, $fl, Vec4 { x: a[0], y: a[1], z: a[2], w: two::<T>() }, $mv, $p, r),
+    };
+    dv3(&v)
+} } }
+fn w2v_form<T: Real + MulAdd<T, T, Output = T>>(form: Form, row: bool, fl: Fl, pt: &[T; 3], mv: &A<T, 4>, p: &A<T, 4>, vp: &[T; 4]) -> [T; 3] { by_form!(world_to_viewport_no, world_to_viewport_zo, form, row, fl, pt, mv, p, vp) }
+fn v2w_form<T: Real + MulAdd<T, T, Output = T>>(form: Form, row: bool, fl: Fl, ray: &[T; 3], mv: &A<T, 4>, p: &A<T, 4>, vp: &[T; 4]) -> [T; 3] { by_form!(viewport_to_world_no, viewport_to_world_zo, form, row, fl, ray, mv, p, vp) }
+/// picking_region with centre and size handed over as Vec2 (0), [T;2] (1) or (T,T) (2)
+fn pick_form<T: Real + MulAdd<T, T, Output = T>>(form: usize, row: bool, c: &[T; 2], d: &[T; 2], vp: &[T; 4]) -> A<T, 4> {
+    let r = Rect { x: vp[0], y: vp[1], w: vp[2], h: vp[3] };
+    match (form % 3, row) {
+        (0, true) => dr4(&rm::Mat4::picking_region(Vec2 { x: c[0], y: c[1] }, Vec2 { x: d[0], y: d[1] }, r)),
+        (0, false) => dc4(&cm::Mat4::picking_region(Vec2 { x: c[0], y: c[1] }, Vec2 { x: d[0], y: d[1] }, r)),
+        (1, true) => dr4(&rm::Mat4::picking_region(*c, *d, r)),
+        (1, false) => dc4(&cm::Mat4::picking_region(*c, *d, r)),
+        (_, true) => dr4(&rm::Mat4::picking_region((c[0], c[1]), (d[0], d[1]), r)),
+        (_, false) => dc4(&cm::Mat4::picking_region((c[0], c[1]), (d[0], d[1]), r)),
+    }
+}
+const PICK_FORMS: [&str; 3] = ["form-vec2", "form-array", "form-tuple"];
+
+fn pow2(k: i32) -> X { if k >= 0 { qi(1i128 << k) } else { q(1, 1i128 << (-k)) } }
+fn scale4(m: &A<X, 4>, k: X) -> A<X, 4> { map4(m, |e| e * k) }
+fn inv4(pm: &A<X, 4>) -> A<X, 4> { let d = det(pm); map4(&adjugate(pm), |e| e / d) }
+
+/// further generators for the projection slot: the (tweaked) infinite perspectives, decoded through fields
+fn extra_projections() -> Vec<Pj> {
+    let b1 = angle_base_t(1, 2);
+    let fov = X::tok(b1, 2);
+    type M = rm::Mat4<X>;
+    let gens: Vec<(&str, Box<dyn Fn() -> M>)> = vec![
+        ("infinite_perspective_rh(tan=4/3,aspect 2)", Box::new(move || M::infinite_perspective_rh(fov, qi(2), qi(1)))),
+        ("infinite_perspective_lh(tan=4/3,aspect 3/2)", Box::new(move || M::infinite_perspective_lh(fov, q(3, 2), q(1, 2)))),
+        ("tweaked_infinite_perspective_rh(eps=1/1024)", Box::new(move || M::tweaked_infinite_perspective_rh(fov, qi(2), qi(1), q(1, 1024)))),
+        ("tweaked_infinite_perspective_lh(eps=1/1024)", Box::new(move || M::tweaked_infinite_perspective_lh(fov, q(3, 2), q(1, 2), q(1, 1024)))),
+    ];
+    let mut out = Vec::new();
+    for (name, f) in gens { if let Ok(m) = catch(|| f().decode()) { if let Ok(d) = catch(|| det(&m)) { if d != qi(0) { out.push(Pj { name: name.to_string(), family: "infinite-perspective", m }); } } } }
+    out
+}
+
+// ---- floats: the same generic code instantiated at f32 / f64 ----------------------------------------
+trait Flt: Real + MulAdd<Self, Self, Output = Self> + std::fmt::Debug + Send + Sync + 'static {
+    const NAME: &'static str; const EPS: f64;
+    /// exponent of the extreme scale (2^+-K must leave every intermediate of the ORIGINAL code in the normal range)
+    const KBIG: i32;
+    /// exponent applied to each of P and MV where the general inverse is involved (its determinant scales with the 4th power of the product)
+    const KMAT: i32;
+    fn of(v: f64) -> Self; fn f(self) -> f64;
+}
+impl Flt for f32 { const NAME: &'static str = "f32"; const EPS: f64 = f32::EPSILON as f64; const KBIG: i32 = 40; const KMAT: i32 = 10; fn of(v: f64) -> f32 { v as f32 } fn f(self) -> f64 { self as f64 } }
+impl Flt for f64 { const NAME: &'static str = "f64"; const EPS: f64 = f64::EPSILON; const KBIG: i32 = 400; const KMAT: i32 = 100; fn of(v: f64) -> f64 { v } fn f(self) -> f64 { self } }
+fn fp2<F: Flt>(k: i32) -> F { F::of(2f64.powi(k)) }
+/// exact conversion of a dyadic rational input (machinery panic if the float type cannot hold it exactly)
+fn to_f<F: Flt>(x: X) -> F { let v = F::of(x.shadow()); assert!(vx::fl::qf(v.f()) == x.rat(), "float alphabet entry {:?} is not exactly representable in {}", x, F::NAME); v }
+fn arr_f<F: Flt, const N: usize>(a: &[X; N]) -> [F; N] { let mut o = [F::zero(); N]; for i in 0..N { o[i] = to_f(a[i]); } o }
+fn mat_f<F: Flt>(a: &A<X, 4>) -> A<F, 4> { map4(a, to_f::<F>) }
+fn absm(a: &A<X, 4>) -> A<f64, 4> { map4(a, |e| e.shadow().abs()) }
+/// sum of the absolute values of the Leibniz terms of the minor (r,c) / of the determinant: the magnitude any
+/// evaluation scheme of that polynomial works at (forward error <= small constant * eps * this)
+fn perm_minor(a: &A<f64, 4>, r: usize, c: usize) -> f64 { minor(&map4(a, |e| Pos(e)), r, c).0 }
+fn perm4(a: &A<f64, 4>) -> f64 { det(&map4(a, |e| Pos(e))).0 }
+/// non-negative magnitudes: subtraction and negation add (so det/minor become permanents)
+#[derive(Clone, Copy)] struct Pos(f64);
+impl Add for Pos { type Output = Pos; fn add(self, o: Pos) -> Pos { Pos(self.0 + o.0) } }
+impl Sub for Pos { type Output = Pos; fn sub(self, o: Pos) -> Pos { Pos(self.0 + o.0) } }
+impl Mul for Pos { type Output = Pos; fn mul(self, o: Pos) -> Pos { Pos(self.0 * o.0) } }
+impl Neg for Pos { type Output = Pos; fn neg(self) -> Pos { self } }
+impl Zero for Pos { fn zero() -> Pos { Pos(0.0) } fn is_zero(&self) -> bool { self.0 == 0.0 } }
+impl One for Pos { fn one() -> Pos { Pos(1.0) } }
+
+/// dyadic alphabets (every entry exactly representable in f32): exact rational reference and float run share the inputs
+fn dy(v: [[i64; 4]; 4], den: i128) -> A<X, 4> { map4(&v, |e| q(e as i128, den)) }
+fn float_modelviews() -> Vec<(&'static str, A<X, 4>)> { vec![
+    ("T(1,2,-3) S(2,1/2,1)", dy([[4, 0, 0, 2], [0, 1, 0, 4], [0, 0, 2, -6], [0, 0, 0, 2]], 2)),
+    ("RZ(90) shear T(-1,3,1/2)", dy([[0, -4, 2, -4], [4, 0, 0, 12], [0, 1, 4, 2], [0, 0, 0, 4]], 4)),
+    ("dense#1", dy([[2, 1, 0, 3], [1, 3, 1, -1], [0, -2, 1, 2], [1, 0, 1, 1]], 1)),
+    ("dense#3", dy([[1, 2, 0, -1], [0, 1, 3, 2], [2, 0, 1, 1], [1, -1, 0, 3]], 2)),
+] }
+fn float_projections() -> Vec<(&'static str, A<X, 4>)> { vec![
+    // glFrustum(-1,3,-2,2,1,5): 2n/(r-l), (r+l)/(r-l), 2n/(t-b), (t+b)/(t-b), -(f+n)/(f-n), -2fn/(f-n)
+    ("frustum-like off-centre (rh, no)", dy([[2, 0, 2, 0], [0, 2, 0, 0], [0, 0, -6, -10], [0, 0, -4, 0]], 4)),
+    // glOrtho(-1,3,-2,2,1,5)
+    ("ortho-like off-centre (rh, no)", dy([[2, 0, 0, -2], [0, 2, 0, 0], [0, 0, -2, -6], [0, 0, 0, 4]], 4)),
+    ("perspective-like (lh, zo)", dy([[3, 0, 0, 0], [0, 4, 0, 0], [0, 0, 5, -5], [0, 0, 4, 0]], 4)),
+    ("dense-projective#1", dy([[2, 0, 1, 1], [1, 3, 0, -2], [0, 1, 2, 1], [1, -1, 1, 3]], 1)),
+] }
+
 fn main() {
     let rep = Report::start("C10", "exploration");
     let th = rep.thorough();
@@ -336,10 +444,10 @@ fn main() {
     });
 
     // -------------------------------------------------------------------------------------------------
-    let extra = if th { 4 } else { 2 };
+    let extra = if th { 8 } else { 2 }; // audit: thorough raised from 4 (the whole section took 0.1 s)
     let pick_order = d_pick.min(12) + extra;
     rep.section("picking_region maps the window rectangle onto the clip square (lattice over the 8 parameters)",
-        "all points of the simplex lattice L(8, D + extra) (D = measured degree of the corner identity, extra = 2 quick / 4 thorough) translated to centre (0,0), size (1,1), viewport (0,0,1,1) so that every size and viewport extent is >= 1: real picking_region of both layouts, decoded through fields, applied by the reference product to the 4 corners (c +- d/2) written in clip coordinates (2(x - vp.x)/vp.w - 1, w = 1, depths {0,1,-2}); each image divided by its w must be (+-1,+-1); non-trivial: the region is off-centre and not of viewport size in at least one axis", true, true, |s| {
+        "all points of the simplex lattice L(8, D + extra) (D = measured degree of the corner identity, extra = 2 quick / 8 thorough) translated to centre (0,0), size (1,1), viewport (0,0,1,1) so that every size and viewport extent is >= 1: real picking_region of both layouts, decoded through fields, applied by the reference product to the 4 corners (c +- d/2) written in clip coordinates (2(x - vp.x)/vp.w - 1, w = 1, depths {0,1,-2}); each image divided by its w must be (+-1,+-1); non-trivial: the region is off-centre and not of viewport size in at least one axis", true, true, |s| {
         s.require_classes(&["region-centred-in-viewport", "region-of-viewport-size(one-axis-or-both)", "generic-region", "layout-row", "layout-col"]);
         if d_pick > 12 { s.degrade("degree premise failed"); }
         let cnt = Cnt::new(&["region-centred-in-viewport", "region-of-viewport-size(one-axis-or-both)", "generic-region", "layout-row", "layout-col"]);
@@ -403,7 +511,7 @@ fn main() {
     let pts = cube(if th { 3 } else { 2 });
     let pairs: Vec<(usize, usize)> = (0..mvs.len()).flat_map(|i| (0..pjs.len()).map(move |j| (i, j))).collect();
     let fams = ["orthographic", "frustum", "perspective", "perspective_fov", "general-projection"];
-    let grid_rule = "model-views {identity, the 11 C07 steps (3 translations, 2 scalings, 5 axis rotations, 1 rotation about (1,2,2)/3), thorough: all 121 two-step chains, 3 dense non-affine invertible matrices} x projections {orthographic_without_depth_planes, orthographic_*, frustum_*, perspective_*, perspective_fov_* (each lh/rh x zo/no, two parameter sets incl. off-centre volumes; built by the real constructors, decoded through fields and used as the input matrix whatever they contain), 2 dense projective matrices} x viewports {(0,0,640,480),(10,-20,3,7),(-5,5,1,1)} x points {-2..2}^3 (thorough {-3..3}^3) x {_no,_zo} x {row,col}";
+    let grid_rule = "model-views {identity, the 11 C07 steps (3 translations, 2 scalings, 5 axis rotations, 1 rotation about (1,2,2)/3), thorough: all 121 two-step chains, 3 dense non-affine invertible matrices} x projections {orthographic_without_depth_planes, orthographic_*, frustum_*, perspective_*, perspective_fov_* (each lh/rh x zo/no, two parameter sets incl. off-centre volumes; built by the real constructors, decoded through fields and used as the input matrix whatever they contain), 3 dense projective matrices (#2 is singular: forward sections only)} x viewports {(0,0,640,480),(10,-20,3,7),(-5,5,1,1)} x points {-2..2}^3 (thorough {-3..3}^3) x {_no,_zo} x {row,col}";
     rep.section("world_to_viewport = viewport-mapped perspective divide (exact grid)",
         &format!("{}: real result vs clip = P(MV(p,1)), ndc = clip/w, window = (vp.x + (ndc.x+1)/2 vp.w, vp.y + (ndc.y+1)/2 vp.h, (ndc.z+1)/2 | ndc.z) on arrays; points with clip w = 0 are outside the property and skipped (counted); non-trivial: clip w != 0 and ndc.xy != (0,0)", grid_rule), true, false, |s| {
         let names = ["orthographic", "frustum", "perspective", "perspective_fov", "general-projection", "identity-modelview", "affine-modelview", "general-modelview", "clip-w-positive", "clip-w-negative", "clip-w-not-1(genuine divide)", "clip-w-zero(skipped)", "depth-outside-the-clip-range", "flavour-no", "flavour-zo", "layout-row", "layout-col"];
@@ -547,7 +655,8 @@ fn main() {
         if d_un7 > 12 { s.degrade("degree premise failed"); }
         let want_pairs = if th { 40 } else { 8 };
         // deterministic spread: projection families round-robin, model-views with stride 4 (reaches the dense ones)
-        let by_fam: Vec<Vec<usize>> = fams.iter().map(|f| (0..pjs.len()).filter(|&i| pjs[i].family == *f).collect()).collect();
+        // (audit: singular projections, i.e. dense-projective#2, are outside the property and have no inverse to compare with)
+        let by_fam: Vec<Vec<usize>> = fams.iter().map(|f| (0..pjs.len()).filter(|&i| pjs[i].family == *f && catch(|| det(&pjs[i].m) != qi(0)).unwrap_or(false)).collect()).collect();
         let sel: Vec<(usize, usize)> = (0..want_pairs).map(|k| { let f = &by_fam[k % fams.len()]; ((k * 4 + 1) % mvs.len(), f[(k / fams.len() * 3 + k % fams.len()) % f.len()]) }).collect();
         let cnt = Cnt::new(&["pre-image-finite", "pre-image-at-infinity(formal)", "orthographic", "frustum", "perspective", "perspective_fov", "general-projection", "identity-modelview", "affine-modelview", "general-modelview"]);
         let mut used = Vec::new();
@@ -584,5 +693,357 @@ fn main() {
         s.sample(json!({"pair": used.first(), "law": "viewport_to_world(r) * w(r) = adj(P MV)/det * ndc(r) as formal fractions"}));
         s.meta("lattice", json!({"n": 7, "measured_cross_degree": d_un7, "order": un_order, "points_per_pair": lattice_count(7, un_order).to_string(), "pairs": used, "failing_cases(all counted; the first per 3-coordinate prefix and site recorded)": nfail.load(Relaxed)}));
     });
+    // =================================================================================================
+    // audit additions
+    // -------------------------------------------------------------------------------------------------
+    let mv1 = modelviews(1);
+    let mut pjx: Vec<Pj> = pjs.clone();
+    pjx.extend(extra_projections());
+    let n_extra_pj = pjx.len() - pjs.len();
+    // quick: one model-view of each flavour and one projection per family + the dense and the infinite ones; thorough: everything
+    let mv_sel: Vec<usize> = if th { (0..mv1.len()).collect() } else { vec![0, 2, 5, 11, 12, 14] };
+    let pj_sel: Vec<usize> = if th { (0..pjx.len()).collect() } else {
+        let mut v: Vec<usize> = ["orthographic", "frustum", "perspective", "perspective_fov"].iter().map(|f| (0..pjx.len()).filter(|&i| pjx[i].family == *f).nth(1).unwrap()).collect();
+        v.extend((0..pjx.len()).filter(|&i| pjx[i].family == "general-projection" || pjx[i].family == "infinite-perspective"));
+        v
+    };
+    let xpairs: Vec<(usize, usize)> = mv_sel.iter().flat_map(|&i| pj_sel.iter().map(move |&j| (i, j))).collect();
+    let big = pow2(40);
+    let tiny = pow2(-40);
+    let mut vpa: Vec<[X; 4]> = vec![
+        [qi(0), qi(0), qi(-640), qi(480)], [qi(10), qi(-20), qi(3), qi(-7)], [qi(-5), qi(5), qi(-1), qi(-1)],
+        [q(7, 2), q(-1, 3), q(5, 4), q(9, 7)], [big, -big, tiny, qi(3) * tiny],
+    ];
+    if th { vpa.push([q(-1, 3), q(2, 7), q(-5, 4), pow2(20)]); vpa.push([-tiny, tiny, big, -big]); }
+    let mut pta: Vec<[X; 3]> = vec![
+        [q(1, 2), q(-3, 4), q(5, 3)], [q(-7, 3), q(2, 5), q(1, 7)], [qi(1000), qi(-2000), qi(3000)], [pow2(20), qi(1) - pow2(20), qi(3)],
+        [pow2(-20), pow2(-21), -pow2(-19)], [qi(0), qi(0), qi(0)], [qi(1), qi(-1), qi(2)],
+    ];
+    if th { pta.extend(cube(1)); }
+    // (factor of MV, factor of P, also unproject?) : a common non-zero factor of either matrix cannot change a perspective-divided result
+    let scalings: Vec<(X, X, bool, &'static str)> = vec![
+        (qi(1), qi(1), true, "matrices-unscaled"), (qi(-1), qi(1), true, "matrices-negated"), (qi(1), qi(-1), true, "matrices-negated"),
+        (pow2(-30), pow2(-30), false, "matrices-scaled-2^-60(clip w below 2^-52)"), (pow2(20), pow2(-10), false, "matrices-scaled-mixed"), (q(-3, 7), qi(5), true, "matrices-scaled-mixed"), (pow2(6), pow2(-3), true, "matrices-scaled-mixed"),
+    ];
+    rep.section("structured extremes on exact rationals: negative / fractional / 2^+-40 viewports, fractional / far / tiny points, homogeneously scaled and negated matrices, window depths outside [0,1], four argument forms",
+        "model-views {identity, T(1,2,3), S(1,-3,1)/2, R[(1,2,2)/3], dense#1, dense#3} (thorough: all 15 one-step and dense ones) x projections {one per builder family, 2 dense projective, 4 (tweaked) infinite perspectives} (thorough: all 39) x (factor of MV, factor of P) in {(1,1),(-1,1),(1,-1),(2^-30,2^-30),(2^20,2^-10),(-3/7,5),(2^6,2^-3)} x viewports {(0,0,-640,480),(10,-20,3,-7),(-5,5,-1,-1),(7/2,-1/3,5/4,9/7),(2^40,-2^40,2^-40,3*2^-40)} (thorough +2) x points {(1/2,-3/4,5/3),(-7/3,2/5,1/7),(1000,-2000,3000),(2^20,1-2^20,3),(2^-20,2^-21,-2^-19),0,(1,-1,2)} (thorough + {-1..1}^3) x {_no,_zo} x {row,col}; the point is handed over as Vec3 / [T;3] / (T,T,T) / Vec4 with junk w in rotation: (a) world_to_viewport equals the reference pipeline on the scaled matrices; (b) for the factor pairs whose inverse stays in i128 range, viewport_to_world of that window point returns the point; (c) window points {vp.x+vp.w/4, vp.x-vp.w} x {vp.y+2vp.h/3} x depths {-1, 2, 3/7} unproject to the reference pre-image adj(P MV)/det; non-trivial: clip w != 0", true, false, |s| {
+        let names = ["viewport-negative-width", "viewport-negative-height", "viewport-fractional", "viewport-2^+-40", "point-fractional", "point-far", "point-tiny", "matrices-unscaled", "matrices-negated", "matrices-scaled-2^-60(clip w below 2^-52)", "matrices-scaled-mixed",
+            "form-vec3", "form-array", "form-tuple", "form-vec4(w dropped)", "window-depth-outside-[0,1]", "round-trip-world", "clip-w-negative", "clip-w-zero(skipped)", "pre-image-at-infinity(skipped)", "infinite-perspective", "general-projection", "general-modelview", "flavour-no", "flavour-zo", "layout-row", "layout-col"];
+        s.require_classes(&names[..18]); s.require_classes(&names[20..]);
+        let cnt = Cnt::new(&names);
+        let nfail = AtomicU64::new(0);
+        xpairs.par_iter().for_each(|&(mi, pi)| {
+            let (mv, pj) = (&mv1[mi], &pjx[pi]);
+            let mut thr = Thr::new(3, &nfail);
+            let mut k = mi + 3 * pi; // rotates the argument forms deterministically
+            for (si, (kmv, kp, unproj, scls)) in scalings.iter().enumerate() {
+                let (mvs_, ps_) = match catch(|| (scale4(&mv.m, *kmv), scale4(&pj.m, *kp))) { Ok(v) => v, Err(_) => { s.eval(false); s.unmodelled("overflow in the reference"); continue; } };
+                let inv = if *unproj { catch(|| inv4(&mmul(&ps_, &mvs_))).ok() } else { None };
+                for (vi, vp) in vpa.iter().enumerate() {
+                    let vneg_w = vp[2] < qi(0); let vneg_h = vp[3] < qi(0);
+                    let vfrac = vp.iter().any(|c| c.rat().d != 1) && vi != 4; let vbig = vp[0].rat().n.unsigned_abs() >= 1 << 40 || vp[2].rat().n.unsigned_abs() >= 1 << 40;
+                    for (qi_, pt) in pta.iter().enumerate() {
+                        let clip = match catch(|| ref_clip(&mvs_, &ps_, pt)) { Ok(c) => c, Err(_) => { s.eval(false); s.unmodelled("overflow in the reference"); continue; } };
+                        if clip[3] == qi(0) { s.eval(false); cnt.add("clip-w-zero(skipped)", 1); continue; }
+                        let wgt = 5_000_000 + ((mi * 100 + pi) * 10 + si) as u64 * 1000 + (vi * 40 + qi_) as u64;
+                        for fl in FLS {
+                            let want = match catch(|| ref_window(&clip, vp, fl)) { Ok(w) => w, Err(_) => { s.eval(false); s.unmodelled("overflow in the reference"); continue; } };
+                            for row in [true, false] {
+                                k += 1; let form = FORMS[k % 4]; let form2 = FORMS[(k / 4 + k) % 4];
+                                s.eval(true);
+                                cnt.add(scls, 1); cnt.add(form.s(), 1); cnt.add(if fl == Fl::NO { "flavour-no" } else { "flavour-zo" }, 1); cnt.add(if row { "layout-row" } else { "layout-col" }, 1);
+                                if vneg_w { cnt.add("viewport-negative-width", 1); } if vneg_h { cnt.add("viewport-negative-height", 1); } if vfrac { cnt.add("viewport-fractional", 1); } if vbig { cnt.add("viewport-2^+-40", 1); }
+                                if qi_ < 2 { cnt.add("point-fractional", 1); } else if qi_ < 4 { cnt.add("point-far", 1); } else if qi_ == 4 { cnt.add("point-tiny", 1); }
+                                if clip[3] < qi(0) { cnt.add("clip-w-negative", 1); }
+                                if pj.family == "infinite-perspective" || pj.family == "general-projection" { cnt.add(pj.family, 1); }
+                                if mv.kind == "general-modelview" { cnt.add(mv.kind, 1); }
+                                let site = format!("Mat4<{}>::world_to_viewport_{}", lay(row), fl.s());
+                                let inp = || json!({"modelview": mv.name, "MV": jmat(&mvs_), "projection": pj.name, "P": jmat(&ps_), "factors(MV,P)": jxs(&[*kmv, *kp]), "viewport(x,y,w,h)": jxs(vp), "point": jxs(pt), "point_passed_as": form.s()});
+                                let Some(got) = s.call(&site, inp, || w2v_form::<X>(form, row, fl, pt, &mvs_, &ps_, vp)) else { continue };
+                                if got != want { if thr.allow(&site, CLS_FWD) { s.violation_w(&site, CLS_FWD, json!({"input": inp(), "clip": jxs(&clip), "got": jxs(&got), "want": jxs(&want)}), wgt); } continue; }
+                                if vneg_w && si == 5 && s.wants_sample() { s.sample(json!({"input": inp(), "window": jxs(&want), "flavour": fl.s()})); }
+                                if inv.is_none() { continue; } // no unprojection asked for, or P MV singular / beyond i128 (dense-projective#2 is singular: outside the property)
+                                s.eval(true); cnt.add("round-trip-world", 1); cnt.add(form2.s(), 1);
+                                let usite = format!("Mat4<{}>::viewport_to_world_{}", lay(row), fl.s());
+                                if let Some(back) = s.call(&usite, inp, || v2w_form::<X>(form2, row, fl, &got, &mvs_, &ps_, vp)) {
+                                    if back != *pt && thr.allow(&usite, CLS_RT) { s.violation_w(&usite, CLS_RT, json!({"input": inp(), "window": jxs(&got), "window_passed_as": form2.s(), "got": jxs(&back), "want": jxs(pt)}), wgt); }
+                                }
+                            }
+                        }
+                    }
+                    // (c) window points with depths outside [0,1]
+                    let Some(inv) = inv.as_ref() else { continue };
+                    let mut rays: Vec<[X; 3]> = Vec::new();
+                    for x in [vp[0] + vp[2] / qi(4), vp[0] - vp[2]] { for z in [qi(-1), qi(2), q(3, 7)] { rays.push([x, vp[1] + vp[3] * q(2, 3), z]); } }
+                    for (ri, ray) in rays.into_iter().enumerate() { for fl in FLS {
+                        let h = match catch(|| ref_unproject_h(inv, vp, &ray, fl)) { Ok(h) => h, Err(_) => { s.eval(false); s.unmodelled("overflow in the reference"); continue; } };
+                        if h[3] == qi(0) { s.eval(false); cnt.add("pre-image-at-infinity(skipped)", 1); continue; }
+                        let want = match catch(|| [h[0] / h[3], h[1] / h[3], h[2] / h[3]]) { Ok(w) => w, Err(_) => { s.eval(false); s.unmodelled("overflow in the reference"); continue; } };
+                        for row in [true, false] {
+                            k += 1; let form = FORMS[k % 4];
+                            s.eval(true); cnt.add(form.s(), 1); if ray[2] < qi(0) || ray[2] > qi(1) { cnt.add("window-depth-outside-[0,1]", 1); }
+                            let site = format!("Mat4<{}>::viewport_to_world_{}", lay(row), fl.s());
+                            let inp = || json!({"modelview": mv.name, "MV": jmat(&mvs_), "projection": pj.name, "P": jmat(&ps_), "viewport(x,y,w,h)": jxs(vp), "window_point": jxs(&ray), "window_passed_as": form.s()});
+                            if let Some(got) = s.call(&site, inp, || v2w_form::<X>(form, row, fl, &ray, &mvs_, &ps_, vp)) {
+                                if got != want && thr.allow(&site, CLS_UN) { s.violation_w(&site, CLS_UN, json!({"input": inp(), "got": jxs(&got), "want(pre-image under the reference projection)": jxs(&want)}), 5_000_000 + ((mi * 100 + pi) * 10 + si) as u64 * 1000 + (vi * 40 + ri) as u64); }
+                            }
+                        }
+                    } }
+                }
+            }
+        });
+        cnt.flush(s);
+        s.meta("alphabet", json!({"modelviews": mv_sel.len(), "projections": pj_sel.len(), "of which infinite perspectives": n_extra_pj, "factor_pairs": scalings.len(), "viewports": vpa.len(), "points": pta.len(), "flavours": 2, "layouts": 2, "argument_forms": 4}));
+        s.meta("failing_cases(all counted; first 3 per matrix pair and site|class recorded)", json!(nfail.load(Relaxed)));
+    });
+
+    // -------------------------------------------------------------------------------------------------
+    rep.section("picking_region on structured extremes: negative / fractional / 2^+-40 viewports, tiny and huge regions, far centres; three argument forms; the picked projection magnifies the region to the viewport",
+        "(a) viewports {(0,0,640,480),(0,0,-640,480),(10,-20,3,-7),(-5,5,-1,-1),(7/2,-1/3,5/4,-9/7),(2^40,-2^40,2^-40,3*2^-40)} x centres {viewport centre, viewport origin, (-9/2,11/2), (vp.x+vp.w/4, vp.y+2vp.h/3), (2^30,-2^30)} x sizes {(1,1),(5,3),(2^-60,2^-58),(2^40,3*2^40),(|vp.w|,|vp.h|),(7/3,1/5)} x {row,col}, centre and size handed over as Vec2 / [T;2] / (T,T) in rotation: the corner law of the lattice section; (b) call sequence: for 4 model-view/projection pairs x 3 points x 3 viewports (one with negative extents) x 3 regions, real world_to_viewport_{no,zo} with the projection replaced by (real picking matrix, decoded through fields) x P (reference product) must give window x,y = vp.xy + (W.xy - (c - d/2))/d * vp.wh where W is the reference window point without picking (depth is not asserted: the property speaks of the clip square only); (c) signed lattice: all points of L(8, 3) (thorough L(8, 6)) x 16 sign patterns (centre, viewport origin, viewport width, viewport height each reflected), size ((1+a2)/2, 1+a3): the corner law; non-trivial: (a), (c) off-centre and not of viewport size in at least one axis, (b) all", true, false, |s| {
+        s.require_classes(&["viewport-negative-width", "viewport-negative-height", "viewport-2^+-40", "region-tiny(2^-60)", "region-huge(2^40)", "centre-far", "generic-region", "form-vec2", "form-array", "form-tuple", "picked-projection", "signed-lattice", "layout-row", "layout-col"]);
+        let vpb: Vec<[X; 4]> = vec![[qi(0), qi(0), qi(640), qi(480)], [qi(0), qi(0), qi(-640), qi(480)], [qi(10), qi(-20), qi(3), qi(-7)], [qi(-5), qi(5), qi(-1), qi(-1)], [q(7, 2), q(-1, 3), q(5, 4), q(-9, 7)], [big, -big, tiny, qi(3) * tiny]];
+        let mut k = 0usize;
+        for (vi, vp) in vpb.iter().enumerate() {
+            let centres = [[vp[0] + vp[2] / qi(2), vp[1] + vp[3] / qi(2)], [vp[0], vp[1]], [q(-9, 2), q(11, 2)], [vp[0] + vp[2] / qi(4), vp[1] + vp[3] * q(2, 3)], [pow2(30), -pow2(30)]];
+            let sizes = [[qi(1), qi(1)], [qi(5), qi(3)], [pow2(-60), pow2(-58)], [big, qi(3) * big], [Real::abs(vp[2]), Real::abs(vp[3])], [q(7, 3), q(1, 5)]];
+            for (ci, c) in centres.iter().enumerate() { for (di, d) in sizes.iter().enumerate() {
+                let centred = |i: usize| qi(2) * (c[i] - vp[i]) == vp[2 + i];
+                let full = |i: usize| d[i] == vp[2 + i];
+                let nontriv = (0..2).any(|i| !centred(i) && !full(i));
+                for row in [true, false] {
+                    k += 1;
+                    s.eval(nontriv); s.class(PICK_FORMS[k % 3]); s.class(if row { "layout-row" } else { "layout-col" });
+                    if vp[2] < qi(0) { s.class("viewport-negative-width"); } if vp[3] < qi(0) { s.class("viewport-negative-height"); } if vi == 5 { s.class("viewport-2^+-40"); }
+                    if di == 2 { s.class("region-tiny(2^-60)"); } if di == 3 { s.class("region-huge(2^40)"); } if ci == 4 { s.class("centre-far"); }
+                    if nontriv { s.class("generic-region"); }
+                    let inp = || json!({"center": jxs(c), "delta": jxs(d), "viewport(x,y,w,h)": jxs(vp), "passed_as": PICK_FORMS[k % 3]});
+                    let site = format!("Mat4<{}>::picking_region", lay(row));
+                    if let Some(m) = s.call(&site, inp, || pick_form::<X>(k, row, c, d, vp)) {
+                        match catch(|| pick_bad(&m, c, d, vp)) {
+                            Ok(Some(bad)) => s.violation_w(&site, catch(|| pick_class(&m, c, d, vp)).unwrap_or(CLS_PICK), json!({"input": inp(), "matrix": jmat(&m), "first_failing_corner": bad}), 2000 + (vi * 100 + ci * 10 + di) as u64),
+                            Ok(None) => { if nontriv && vi > 0 && s.wants_sample() { s.sample(json!({"input": inp(), "matrix": jmat(&m)})); } }
+                            Err(_) => s.unmodelled("overflow in the reference"),
+                        }
+                    }
+                }
+            } }
+        }
+        // (c) signed lattice: the simplex lattice of the first picking section reaches the non-negative orthant only
+        let sl_order = if s.thorough() { 6 } else { 3 };
+        let (nbad, nsl) = (AtomicU64::new(0), AtomicU64::new(0));
+        par_lattice(8, sl_order, |a| {
+            for sg in 0..16u32 {
+                let (sc, sv, sw, sh) = (if sg & 1 == 0 { 1 } else { -1 }, if sg & 2 == 0 { 1 } else { -1 }, if sg & 4 == 0 { 1 } else { -1 }, if sg & 8 == 0 { 1 } else { -1 });
+                if (sc < 0 && a[0] == 0 && a[1] == 0) || (sv < 0 && a[4] == 0 && a[5] == 0) { continue; } // the reflection would repeat the unreflected point
+                let c = [xi(sc * a[0]), xi(sc * a[1])]; let d = [q(1 + a[2] as i128, 2), xi(1 + a[3])]; let vp = [xi(sv * a[4]), xi(sv * a[5]), xi(sw * (1 + a[6])), xi(sh * (1 + a[7]))];
+                let centred = |i: usize| qi(2) * (c[i] - vp[i]) == vp[2 + i];
+                let full = |i: usize| d[i] == vp[2 + i];
+                let nontriv = (0..2).any(|i| !centred(i) && !full(i));
+                for row in [true, false] {
+                    s.eval(nontriv); nsl.fetch_add(1, Relaxed);
+                    let site = format!("Mat4<{}>::picking_region", lay(row));
+                    let inp = || json!({"center": jxs(&c), "delta": jxs(&d), "viewport(x,y,w,h)": jxs(&vp)});
+                    if let Some(m) = s.call(&site, inp, || real_pick::<X>(row, &c, &d, &vp)) {
+                        match catch(|| pick_bad(&m, &c, &d, &vp)) {
+                            Ok(Some(bad)) => { nbad.fetch_add(1, Relaxed); let w = a.iter().sum::<i64>() as u64; if w <= 2 { s.violation_w(&site, catch(|| pick_class(&m, &c, &d, &vp)).unwrap_or(CLS_PICK), json!({"input": inp(), "matrix": jmat(&m), "first_failing_corner": bad}), 2500 + w * 16 + sg as u64); } }
+                            Ok(None) => {}
+                            Err(_) => s.unmodelled("overflow in the reference"),
+                        }
+                    }
+                }
+            }
+        });
+        s.class_n("signed-lattice", nsl.load(Relaxed));
+        s.meta("signed lattice", json!({"order": sl_order, "points": lattice_count(8, sl_order).to_string(), "sign patterns (centre, viewport origin, viewport width, viewport height)": 16, "size": "((1 + a2)/2, 1 + a3)", "failing (point, signs, layout) cases (recorded up to weight 2)": nbad.load(Relaxed)}));
+        // (b) the picking matrix in front of a projection
+        let seq_pairs = [(2usize, "frustum"), (11, "perspective"), (12, "general-projection"), (14, "orthographic")];
+        for (mi, fam) in seq_pairs {
+            let mv = &mv1[mi]; let pj = pjs.iter().find(|p| p.family == fam).unwrap();
+            for vp in [&vpb[0], &vpb[2], &vpb[4]] { for pt in [[qi(1), qi(-1), qi(2)], [q(1, 2), q(-3, 4), q(5, 3)], [qi(-2), qi(1), qi(-1)]] {
+                let Ok(clip) = catch(|| ref_clip(&mv.m, &pj.m, &pt)) else { s.unmodelled("overflow in the reference"); continue };
+                if clip[3] == qi(0) { continue; }
+                for (c, d) in [([vp[0] + vp[2] / qi(4), vp[1] + vp[3] * q(2, 3)], [qi(5), qi(3)]), ([q(-9, 2), q(11, 2)], [q(7, 3), q(1, 5)]), ([vp[0], vp[1]], [pow2(-20), pow2(10)])] {
+                    for row in [true, false] {
+                        let psite = format!("Mat4<{}>::picking_region", lay(row));
+                        let pinp = || json!({"center": jxs(&c), "delta": jxs(&d), "viewport(x,y,w,h)": jxs(vp)});
+                        let Some(m) = s.call(&psite, pinp, || real_pick::<X>(row, &c, &d, vp)) else { continue };
+                        let Ok(pp) = catch(|| mmul(&m, &pj.m)) else { s.unmodelled("overflow in the reference"); continue };
+                        for fl in FLS {
+                            s.eval(true); s.class("picked-projection");
+                            let site = format!("Mat4<{}>::picking_region x P -> world_to_viewport_{}", lay(row), fl.s());
+                            let inp = || json!({"modelview": mv.name, "projection": pj.name, "picking": pinp(), "picking_matrix": jmat(&m), "point": jxs(&pt)});
+                            let want = match catch(|| { let w = ref_window(&clip, vp, fl); [vp[0] + (w[0] - (c[0] - d[0] / qi(2))) / d[0] * vp[2], vp[1] + (w[1] - (c[1] - d[1] / qi(2))) / d[1] * vp[3]] }) { Ok(w) => w, Err(_) => { s.unmodelled("overflow in the reference"); continue; } };
+                            if let Some(got) = s.call(&site, inp, || real_w2v::<X>(row, fl, &pt, &mv.m, &pp, vp)) {
+                                if got[0] != want[0] || got[1] != want[1] { s.violation_w(&site, "picked-projection-does-not-magnify-the-region-to-the-viewport", json!({"input": inp(), "got(x,y)": jxs(&got[..2]), "want(x,y)": jxs(&want)}), 3000); }
+                            }
+                        }
+                    }
+                }
+            } }
+        }
+    });
+
+    // -------------------------------------------------------------------------------------------------
+    fn float_section<F: Flt>(s: &Section) {
+        let names = ["close-to-exact:world_to_viewport", "close-to-exact:viewport_to_world", "close-to-exact:picking_region", "ill-conditioned(skipped)",
+            "law:P,MV x 2^+-K", "law:viewport x 2^+-K", "law:world x 2^+-K", "law:picking arguments x 2^+-K", "flavour-no", "flavour-zo", "layout-row", "layout-col"];
+        s.require_classes(&names[..3]); s.require_classes(&names[4..]);
+        let (kb, km) = (F::KBIG, F::KMAT);
+        let mut vps = vec![[qi(0), qi(0), qi(640), qi(480)], [qi(10), qi(-20), qi(4), qi(-8)], [q(-11, 2), q(21, 4), qi(-1), q(1, 2)]];
+        let mut pts = vec![[qi(1), qi(-2), qi(3)], [q(1, 2), q(1, 4), q(-3, 2)], [qi(-3), qi(1), q(3, 4)]];
+        if s.thorough() { vps.push([qi(-256), qi(1024), qi(-2048), qi(-3)]); pts.extend([[qi(0), qi(0), qi(0)], [qi(100), qi(-75), q(51, 2)], [q(1, 64), q(-3, 128), q(5, 256)], [qi(2), qi(2), qi(-5)]]); }
+        // thorough: a ladder of exponents up to the extreme one (a guard with a threshold anywhere below is met from both sides)
+        let ladder = |top: i32| -> Vec<i32> { if s.thorough() { vec![top / 8, top / 4, top / 2, 3 * top / 4, top] } else { vec![top] } };
+        let tol = |scale: f64| vx::fl::K * F::EPS * scale;
+        let jf = |a: &[F]| json!(a.iter().map(|v| format!("{:?}", v)).collect::<Vec<_>>());
+        let sc4 = |m: &A<F, 4>, k: i32| map4(m, |e| e * fp2::<F>(k));
+        let same = |a: &[F; 3], b: &[F; 3]| (0..3).all(|i| a[i] == b[i]);
+        let mut k = 0usize;
+        for (mvn, mvx) in float_modelviews() { for (pjn, px) in float_projections() {
+            let (mvf, pf) = (mat_f::<F>(&mvx), mat_f::<F>(&px));
+            let pm = mmul(&px, &mvx);
+            let dpm = det(&pm);
+            assert!(dpm != qi(0), "float alphabet: singular pair");
+            let inv = inv4(&pm);
+            // magnitudes for the forward error bound: |P| |MV| and the permanents of its minors
+            let pma = mmul(&absm(&px), &absm(&mvx));
+            let (deta, dabs) = (perm4(&pma), dpm.shadow().abs());
+            let mut inv_err = [[0f64; 4]; 4];
+            for i in 0..4 { for j in 0..4 { inv_err[i][j] = perm_minor(&pma, j, i) / dabs + inv[i][j].shadow().abs() * deta / dabs; } }
+            for vp in &vps { let vpf = arr_f::<F, 4>(vp);
+                for pt in &pts { let ptf = arr_f::<F, 3>(pt);
+                    let clip = ref_clip(&mvx, &px, pt);
+                    if clip[3] == qi(0) { continue; }
+                    let ca = mvec(&absm(&px), &mvec(&absm(&mvx), &[pt[0].shadow().abs(), pt[1].shadow().abs(), pt[2].shadow().abs(), 1.0]));
+                    let wabs = clip[3].shadow().abs();
+                    let ndc_s: Vec<f64> = (0..3).map(|i| ca[i] / wabs + clip[i].shadow().abs() * ca[3] / (wabs * wabs)).collect();
+                    let well = ca[3] / wabs <= 1024.0;
+                    for fl in FLS { for row in [true, false] {
+                        k += 1; let form = FORMS[k % 4];
+                        s.class(if fl == Fl::NO { "flavour-no" } else { "flavour-zo" }); s.class(if row { "layout-row" } else { "layout-col" });
+                        let site = format!("Mat4<{}>::world_to_viewport_{}<{}>", lay(row), fl.s(), F::NAME);
+                        let inp = || json!({"modelview": mvn, "MV": jmat(&mvx), "projection": pjn, "P": jmat(&px), "viewport(x,y,w,h)": jxs(vp), "point": jxs(pt), "element": F::NAME});
+                        let Some(base) = s.call(&site, inp, || w2v_form::<F>(form, row, fl, &ptf, &mvf, &pf, &vpf)) else { continue };
+                        // closeness to the exact pipeline on the same (exactly representable) inputs
+                        if well {
+                            s.eval(true); s.class("close-to-exact:world_to_viewport");
+                            let want = ref_window(&clip, vp, fl);
+                            let scale = [(ndc_s[0] + 1.0) * vp[2].shadow().abs() + vp[0].shadow().abs(), (ndc_s[1] + 1.0) * vp[3].shadow().abs() + vp[1].shadow().abs(), ndc_s[2] + 1.0];
+                            for i in 0..3 { if !((base[i].f() - want[i].shadow()).abs() <= tol(scale[i])) {
+                                s.violation_w(&site, "float-result-not-within-the-forward-error-bound-of-the-exact-pipeline", json!({"input": inp(), "component": i, "got": jf(&base), "want": jxs(&want), "bound": tol(scale[i])}), 10); break;
+                            } }
+                        } else { s.eval(false); s.class("ill-conditioned(skipped)"); }
+                        // scaling laws (bitwise: multiplying by a power of two commutes with rounding while nothing leaves the normal range)
+                        for (a, b) in ladder(kb).into_iter().flat_map(|e| [(e, e), (-e, -e), (e, -e), (-e, 0), (0, e)]) {
+                            s.eval(true); s.class("law:P,MV x 2^+-K");
+                            if let Some(got) = s.call(&site, inp, || w2v_form::<F>(form, row, fl, &ptf, &sc4(&mvf, b), &sc4(&pf, a), &vpf)) {
+                                if !same(&got, &base) { s.violation_w(&site, "result-depends-on-a-common-power-of-two-factor-of-the-matrices", json!({"input": inp(), "P scaled by 2^": a, "MV scaled by 2^": b, "got": jf(&got), "unscaled": jf(&base)}), 20 + a.unsigned_abs() as u64); }
+                            }
+                        }
+                        for e in ladder(kb).into_iter().flat_map(|e| [e, -e]) {
+                            s.eval(true); s.class("law:viewport x 2^+-K");
+                            let vps_ = [vpf[0] * fp2(e), vpf[1] * fp2(e), vpf[2] * fp2(e), vpf[3] * fp2(e)];
+                            let want = [base[0] * fp2(e), base[1] * fp2(e), base[2]];
+                            if let Some(got) = s.call(&site, inp, || w2v_form::<F>(form, row, fl, &ptf, &mvf, &pf, &vps_)) {
+                                if !same(&got, &want) { s.violation_w(&site, "window-point-does-not-scale-with-the-viewport", json!({"input": inp(), "viewport scaled by 2^": e, "got": jf(&got), "want(unscaled result, x and y scaled)": jf(&want)}), 30); }
+                            }
+                            s.eval(true); s.class("law:world x 2^+-K");
+                            let pts_ = [ptf[0] * fp2(e), ptf[1] * fp2(e), ptf[2] * fp2(e)];
+                            let mut mvs_ = mvf; for i in 0..4 { for j in 0..3 { mvs_[i][j] = mvf[i][j] * fp2(-e); } }
+                            if let Some(got) = s.call(&site, inp, || w2v_form::<F>(form, row, fl, &pts_, &mvs_, &pf, &vpf)) {
+                                if !same(&got, &base) { s.violation_w(&site, "result-depends-on-the-unit-of-the-world", json!({"input": inp(), "point scaled by 2^": e, "first three MV columns scaled by 2^": -e, "got": jf(&got), "unscaled": jf(&base)}), 40); }
+                            }
+                        }
+                    } }
+                }
+                // unprojection of window points
+                for (fx, fy, z) in [(q(1, 4), q(3, 4), q(1, 4)), (q(1, 2), q(1, 8), q(3, 4)), (q(-1, 4), q(5, 4), q(1, 2))] { for fl in FLS {
+                    let ray = [vp[0] + vp[2] * fx, vp[1] + vp[3] * fy, z];
+                    let rayf = arr_f::<F, 3>(&ray);
+                    let h = ref_unproject_h(&inv, vp, &ray, fl);
+                    if h[3] == qi(0) { continue; }
+                    let want = [h[0] / h[3], h[1] / h[3], h[2] / h[3]];
+                    // magnitudes: ndc components are O(|f| + 1); h_i = sum_j inv_ij ndc_j
+                    // ndc.x = 2 (x - vp.x)/vp.w - 1 evaluated on absolute values (the subtraction cancels: its operands' magnitudes count)
+                    let ndx = [2.0 * (ray[0].shadow().abs() + vp[0].shadow().abs()) / vp[2].shadow().abs() + 1.0, 2.0 * (ray[1].shadow().abs() + vp[1].shadow().abs()) / vp[3].shadow().abs() + 1.0, 2.0 * z.shadow().abs() + 1.0, 1.0];
+                    let ha: Vec<f64> = (0..4).map(|i| (0..4).map(|j| inv_err[i][j] * ndx[j]).sum::<f64>()).collect();
+                    let hw = h[3].shadow().abs();
+                    let well = ha[3] / hw <= 1024.0;
+                    for row in [true, false] {
+                        k += 1; let form = FORMS[k % 4];
+                        s.class(if fl == Fl::NO { "flavour-no" } else { "flavour-zo" }); s.class(if row { "layout-row" } else { "layout-col" });
+                        let site = format!("Mat4<{}>::viewport_to_world_{}<{}>", lay(row), fl.s(), F::NAME);
+                        let inp = || json!({"modelview": mvn, "MV": jmat(&mvx), "projection": pjn, "P": jmat(&px), "viewport(x,y,w,h)": jxs(vp), "window_point": jxs(&ray), "element": F::NAME});
+                        let Some(base) = s.call(&site, inp, || v2w_form::<F>(form, row, fl, &rayf, &mvf, &pf, &vpf)) else { continue };
+                        if well {
+                            s.eval(true); s.class("close-to-exact:viewport_to_world");
+                            for i in 0..3 {
+                                let scale = ha[i] / hw + h[i].shadow().abs() * ha[3] / (hw * hw);
+                                if !((base[i].f() - want[i].shadow()).abs() <= tol(scale)) { s.violation_w(&site, "float-result-not-within-the-forward-error-bound-of-the-exact-pipeline", json!({"input": inp(), "component": i, "got": jf(&base), "want": jxs(&want), "bound": tol(scale)}), 10); break; }
+                            }
+                        } else { s.eval(false); s.class("ill-conditioned(skipped)"); }
+                        for (a, b) in ladder(km).into_iter().flat_map(|e| [(e, e), (-e, -e), (2 * e, -e), (-e, 0), (0, e)]) {
+                            s.eval(true); s.class("law:P,MV x 2^+-K");
+                            if let Some(got) = s.call(&site, inp, || v2w_form::<F>(form, row, fl, &rayf, &sc4(&mvf, b), &sc4(&pf, a), &vpf)) {
+                                if !same(&got, &base) { s.violation_w(&site, "result-depends-on-a-common-power-of-two-factor-of-the-matrices", json!({"input": inp(), "P scaled by 2^": a, "MV scaled by 2^": b, "got": jf(&got), "unscaled": jf(&base)}), 20 + a.unsigned_abs() as u64); }
+                            }
+                        }
+                        for e in ladder(kb).into_iter().flat_map(|e| [e, -e]) {
+                            s.eval(true); s.class("law:viewport x 2^+-K");
+                            let vps_ = [vpf[0] * fp2(e), vpf[1] * fp2(e), vpf[2] * fp2(e), vpf[3] * fp2(e)];
+                            let rays_ = [rayf[0] * fp2(e), rayf[1] * fp2(e), rayf[2]];
+                            if let Some(got) = s.call(&site, inp, || v2w_form::<F>(form, row, fl, &rays_, &mvf, &pf, &vps_)) {
+                                if !same(&got, &base) { s.violation_w(&site, "result-depends-on-the-unit-of-the-window", json!({"input": inp(), "viewport and window x,y scaled by 2^": e, "got": jf(&got), "unscaled": jf(&base)}), 30); }
+                            }
+                        }
+                        for e in ladder(km).into_iter().flat_map(|e| [e, -e]) {
+                            s.eval(true); s.class("law:world x 2^+-K");
+                            let mut mvs_ = mvf; for i in 0..4 { for j in 0..3 { mvs_[i][j] = mvf[i][j] * fp2(-e); } }
+                            let want = [base[0] * fp2(e), base[1] * fp2(e), base[2] * fp2(e)];
+                            if let Some(got) = s.call(&site, inp, || v2w_form::<F>(form, row, fl, &rayf, &mvs_, &pf, &vpf)) {
+                                if !same(&got, &want) { s.violation_w(&site, "world-point-does-not-scale-with-the-unit-of-the-world", json!({"input": inp(), "first three MV columns scaled by 2^": -e, "got": jf(&got), "want(unscaled result x 2^e)": jf(&want)}), 40); }
+                            }
+                        }
+                    }
+                } }
+            }
+        } }
+        // picking matrix
+        for vp in &vps { for (c, d) in [([vp[0] + vp[2] / qi(4), vp[1] + vp[3] * q(3, 4)], [qi(5), qi(3)]), ([q(-9, 2), q(11, 2)], [q(7, 4), q(1, 8)]), ([vp[0], vp[1]], [q(1, 1024), qi(1024)])] {
+            let (vpf, cf, df) = (arr_f::<F, 4>(vp), arr_f::<F, 2>(&c), arr_f::<F, 2>(&d));
+            for row in [true, false] {
+                k += 1;
+                s.class(if row { "layout-row" } else { "layout-col" });
+                let site = format!("Mat4<{}>::picking_region<{}>", lay(row), F::NAME);
+                let inp = || json!({"center": jxs(&c), "delta": jxs(&d), "viewport(x,y,w,h)": jxs(vp), "element": F::NAME});
+                let Some(base) = s.call(&site, inp, || pick_form::<F>(k, row, &cf, &df, &vpf)) else { continue };
+                s.eval(true); s.class("close-to-exact:picking_region");
+                // corners: image = sc*n + tr (the float entries are exact rationals); every rounding happened at magnitude <= |sc||n| + (|vp.w| + 2(|c| + |vp.x|))/|d|
+                let mx = map4(&base, |e| X::R(vx::fl::qf(e.f())));
+                'corners: for sx in [qi(-1), qi(1)] { for sy in [qi(-1), qi(1)] {
+                    let hc = pick_corner_h(&mx, &c, &d, vp, sx, sy, q(1, 2));
+                    let nx = [((c[0] + sx * d[0] / qi(2) - vp[0]) / vp[2] * qi(2) - qi(1)).shadow().abs(), ((c[1] + sy * d[1] / qi(2) - vp[1]) / vp[3] * qi(2) - qi(1)).shadow().abs()];
+                    for i in 0..2 {
+                        let scale = (vp[2 + i] / d[i]).shadow().abs() * nx[i] + (vp[2 + i].shadow().abs() + 2.0 * (c[i].shadow().abs() + vp[i].shadow().abs())) / d[i].shadow().abs();
+                        let (got, want) = ((hc[i] / hc[3]).shadow(), [sx, sy][i].shadow());
+                        if hc[3] == qi(0) || !((got - want).abs() <= tol(scale)) { s.violation_w(&site, "float-matrix-misses-the-clip-square-by-more-than-the-forward-error-bound", json!({"input": inp(), "corner": jxs(&[sx, sy]), "axis": i, "image": got, "bound": tol(scale)}), 10); break 'corners; }
+                    }
+                } }
+                for e in ladder(kb).into_iter().flat_map(|e| [e, -e]) {
+                    s.eval(true); s.class("law:picking arguments x 2^+-K");
+                    let (vs, cs, ds) = ([vpf[0] * fp2(e), vpf[1] * fp2(e), vpf[2] * fp2(e), vpf[3] * fp2(e)], [cf[0] * fp2(e), cf[1] * fp2(e)], [df[0] * fp2(e), df[1] * fp2(e)]);
+                    if let Some(got) = s.call(&site, inp, || pick_form::<F>(k, row, &cs, &ds, &vs)) {
+                        if got != base { s.violation_w(&site, "matrix-depends-on-the-unit-of-the-window", json!({"input": inp(), "all arguments scaled by 2^": e, "got": format!("{:?}", got), "unscaled": format!("{:?}", base)}), 30); }
+                    }
+                }
+            }
+        } }
+        s.meta("scales", json!({"element": F::NAME, "K (viewport, window, world, matrices in world_to_viewport)": kb, "per-matrix exponent where the general inverse is involved": km, "tolerance": "256 * eps * (magnitude of the oracle's intermediates evaluated on absolute values)"}));
+        s.sample(json!({"law": "world_to_viewport(p, 2^b MV, 2^a P, vp) == world_to_viewport(p, MV, P, vp) bit for bit", "element": F::NAME, "a,b": [kb, kb]}));
+    }
+    let float_rule = |e: &str, kb: i32, km: i32| format!("element type {e}: 4 dyadic model-views (TS, rotation+shear+translation, 2 dense) x 4 dyadic projections (off-centre frustum-like, off-centre ortho-like, lh-zo perspective-like, dense projective) x 3 viewports (one with negative height, one fractional with negative width) x 3 points / 3 window points (thorough: 4 viewports, 7 points, and every law also at 1/8, 1/4, 1/2, 3/4 of the extreme exponent) x {{_no,_zo}} x {{row,col}}, argument forms in rotation, every input exactly representable: (1) result within 256 eps x (magnitude of the exact pipeline evaluated on absolute values) of the exact rational pipeline on the same inputs (skipped and counted when |clip w| or |pre-image w| is below 2^-10 of its absolute-value evaluation); (2) bitwise scaling laws: P and MV times powers of two up to 2^+-{kb} (world_to_viewport) / 2^+-{km} each (viewport_to_world: the inverse's determinant scales with the 4th power) leave the result unchanged, viewport (and window x,y) times 2^+-{kb} scales window x,y exactly / leaves the world point unchanged, point times 2^e with the first three MV columns times 2^-e leaves the window point unchanged / scales the world point, picking_region is unchanged when centre, size and viewport are all times 2^+-{kb}; non-trivial: all but the skipped");
+    rep.section("floats f64: forward-error closeness to the exact pipeline and bitwise power-of-two scaling laws at 2^+-400", &float_rule("f64", 400, 100), true, false, |s| float_section::<f64>(s));
+    rep.section("floats f32: forward-error closeness to the exact pipeline and bitwise power-of-two scaling laws at 2^+-40", &float_rule("f32", 40, 10), true, false, |s| float_section::<f32>(s));
+
     std::process::exit(rep.finish());
 }
